@@ -79,20 +79,36 @@ pub fn main(args: &[String]) {
         };
         texts.push((t, tag));
     }
+    // modes[i]: which entry point / flag combination case i goes through (default i / 3, as before)
+    let mut modes: Vec<usize> = (0..texts.len()).map(|i| i / 3).collect();
+    // slot family: every syntactic slot of the preprocessor language (macro text, macro-named include operand, default text, actual argument,
+    // file names, conditional / undef names, string and comment contents, directive arguments, macro names, stringification, escaped identifiers)
+    // filled with every odd string (empty, a lone delimiter, unbalanced quote / bracket, multi-byte characters first / last, line ends,
+    // comment openers, backticks), through all six entry-point modes
+    {
+        let templates = ["`define X {}\n`include `X\n", "`define X {}\n`X\n", "`define X(a) {}\n`X(1)\n", "`define X(a={}) a\n`X()\n", "`define X(a) a\n`X({})\n", "`define X(a,b) a b\n`X({},{})\n",
+            "`include \"{}\"\n", "`include <{}>\n", "`include {}\n", "`ifdef {}\n`endif\n", "`ifndef A\n`elsif {}\n`endif\n", "`undef {}\n", "\"{}\"\n", "/*{}*/\n", "//{}\n", "`timescale {}\n", "`line {}\n", "`pragma {}\n",
+            "`begin_keywords \"{}\"\n", "`default_nettype {}\n", "`define {} 1\n", "`define X(a) `\"a{}`\"\n`X(1)\n", "`{}\n", "\\{} \n", "`define X {}\nmodule m; initial $display(`X); endmodule\n",
+            "`__FILE__{}\n", "`__LINE__{}\n", "`define X(a) a``{}\n`X(1)\n", "`define X \"{}\"\n`include `X\n", "`define X <{}>\n`include `X\n", "module m; initial $display(\"{}\"); endmodule\n", "module {}; endmodule\n"];
+        let odd = ["", "<", ">", "\"", "\"\"", "<>", "<a", "a>", "\"a", "a\"", "é", "\"é", "é\"", "<é", "é>", "inc/café", "\"a.svh\" é", "日", "\\", "\\\n", "`", "``", "`\"", "`\\`\"", "(", ")", "((", ",", "{", "}", "[", " ", "\t", "\n", "\r", "\r\n",
+            "//", "/*", "*/", "/", "1", "a b", "\u{85}", "\u{a0}", "\u{0}", "\u{feff}", "a\u{301}", "x.svh", "dir", "\x0c", "__LINE__", "X", "a\nb", "\"a\nb\"", "'", "$", "#"];
+        for t in templates.iter() { for o in odd.iter() { for m in 0..6usize { texts.push((t.replace("{}", o), "slot-family")); modes.push(m); } } }
+    }
+    let modes = std::sync::Arc::new(modes); let modes2 = modes.clone();
     let defs: Vec<Defines> = (0..16).map(|_| weird_defines(&mut rng)).collect();
     let texts = std::sync::Arc::new(texts); let defs = std::sync::Arc::new(defs);
     let (t2, d2) = (texts.clone(), defs.clone());
     let results = util::par_map(texts.len(), util::env_usize("SVH_THREADS", 16), move |i| {
         let (t, _) = &t2[i]; let d = &d2[i % 16];
-        match std::panic::catch_unwind(std::panic::AssertUnwindSafe(|| one_text(t, i / 3, d))) { Ok(r) => r, Err(e) => Err(format!("panic: {}", util::panic_msg(e))) }
+        match std::panic::catch_unwind(std::panic::AssertUnwindSafe(|| one_text(t, modes2[i], d))) { Ok(r) => r, Err(e) => Err(format!("panic: {}", util::panic_msg(e))) }
     });
     let mut rep = Report::new("token soups from the directive / SystemVerilog / library alphabets (incl. non-ASCII, control bytes, lone backticks, quotes, backslashes), mutated corpus and preprocessor test inputs, truncations at every byte of small programs, with odd caller defines (formals without text, self-recursive, odd names, unterminated-string bodies), through preprocess_str / parse_sv_str / parse_lib_str with all flags, then tree iteration, events, get_str, get_str_trim, get_origin, Locate::try_from, Display and Debug; files with arbitrary bytes and missing include targets through preprocess / parse_sv; non-trivial = every case (each is a potential panic); distinct by (text, mode)");
     for (i, ((t, tag), r)) in texts.iter().zip(results.into_iter()).enumerate() {
-        let key = format!("{}{}", i / 3 % 6, t);
+        let key = format!("{}{}", modes[i] % 6, t);
         match r {
             Ok((ok, what)) => { rep.case(key.as_bytes(), true); rep.count(&format!("{}:{}", tag, if ok { "ok" } else { what.split('(').next().unwrap_or("err") })); if rep.samples.len() < 4 && t.len() < 80 { rep.sample(format!("{:?} -> {}", t, &what[..what.len().min(60)])); } }
             Err(m) => { rep.case(key.as_bytes(), true);
-                let mode = i / 3; let d = defs[i % 16].clone();
+                let mode = modes[i]; let d = defs[i % 16].clone();
                 let small = crate::report::shrink(t, &|x| matches!(std::panic::catch_unwind(std::panic::AssertUnwindSafe(|| one_text(x, mode, &d))), Err(_)));
                 rep.violation(&m, &small, &format!("mode={} tag={}", mode % 6, tag)); }
         }
